@@ -13,6 +13,10 @@ enum Op {
     SetNode(u64, u64, u64),
     CreateEdge(u64, u64),
     SetEdge(u64, u64, u64),
+    /// create_edge followed by set_edge_property_sparse per property (what Cypher CREATE / MERGE do)
+    CreateEdgeP(u64, u64, Vec<(u64, u64)>),
+    /// remove_edge_property
+    RemoveEdge(u64, u64),
     Begin(bool),
     Commit(u64),
     Abort(u64),
@@ -29,6 +33,8 @@ fn g_op(o: &Op) -> String {
         Op::SetNode(n, k, v) => format!("SetNode {} {} {}", n, k, v),
         Op::CreateEdge(a, b) => format!("CreateEdge {} {}", a, b),
         Op::SetEdge(e, k, v) => format!("SetEdge {} {} {}", e, k, v),
+        Op::CreateEdgeP(a, b, p) => format!("CreateEdgeP {} {} {}", a, b, g_props(p)),
+        Op::RemoveEdge(e, k) => format!("RemoveEdge {} {}", e, k),
         Op::Begin(si) => format!("Tx (Begin {})", if *si { "SI" } else { "RC" }),
         Op::Commit(t) => format!("Tx (Commit {})", t),
         Op::Abort(t) => format!("Tx (Abort {})", t),
@@ -42,6 +48,8 @@ fn h_op(o: &Op) -> String {
         Op::SetNode(n, k, v) => format!("sn{}.{}={}", n, k, v),
         Op::CreateEdge(a, b) => format!("ce{}-{}", a, b),
         Op::SetEdge(e, k, v) => format!("se{}.{}={}", e, k, v),
+        Op::CreateEdgeP(a, b, p) => format!("cep{}-{}{:?}", a, b, p),
+        Op::RemoveEdge(e, k) => format!("re{}.{}", e, k),
         Op::Begin(si) => format!("B{}", if *si { "si" } else { "rc" }),
         Op::Commit(t) => format!("{}C", t),
         Op::Abort(t) => format!("{}A", t),
@@ -163,6 +171,7 @@ fn run_case(out: &mut Out, ctx: &mut Ctx, sc: &Scope, ops: &[Op], tag: &str) {
     let mut compared = 0u64;
     let mut edge_created_late = false;
     let mut late_edge_updated = false;
+    let mut edge_prop_removed = false;
     // first observation of every read at a version older than the current one: (is_edge, id, version)
     let mut seen: std::collections::BTreeMap<(bool, u64, u64), Read> = std::collections::BTreeMap::new();
     for (pos, op) in ops.iter().enumerate() {
@@ -172,6 +181,7 @@ fn run_case(out: &mut Out, ctx: &mut Ctx, sc: &Scope, ops: &[Op], tag: &str) {
             Op::GcAuto => Some(store.gc_watermark()),
             _ => None,
         };
+        let before_remove: Read = if let Op::RemoveEdge(e, _) = op { read_edge(&store, *e, store.current_version) } else { None };
         let before = gc_w.map(|_| (all_node_reads(&store, sc), all_edge_reads(&store, sc), all_txn_reads(&store, sc), active_ids(&store), store.gc_watermark()));
         let res: String = match op {
             Op::CreateNode(p) => {
@@ -206,6 +216,23 @@ fn run_case(out: &mut Out, ctx: &mut Ctx, sc: &Scope, ops: &[Op], tag: &str) {
                     "MErr".into()
                 }
             },
+            Op::CreateEdgeP(a, b, p) => match store.create_edge(NodeId::new(*a), NodeId::new(*b), "R") {
+                Ok(id) => {
+                    for (k, v) in p {
+                        store.set_edge_property_sparse(id, key(*k), PropertyValue::Integer(*v as i64));
+                    }
+                    format!("MId {}", id.as_u64())
+                }
+                Err(GraphError::InvalidEdgeSource(_)) | Err(GraphError::InvalidEdgeTarget(_)) => "MErr".into(),
+                Err(e) => {
+                    bad.get_or_insert(format!("op {}: unexpected error {:?}", pos, e));
+                    "MErr".into()
+                }
+            },
+            Op::RemoveEdge(e, k) => {
+                store.remove_edge_property(EdgeId::new(*e), &key(*k));
+                "MOk".into()
+            }
             Op::Begin(si) => {
                 let id = store.begin_transaction(if *si { IsolationLevel::SnapshotIsolation } else { IsolationLevel::ReadCommitted });
                 format!("MTx (RBegin {})", id)
@@ -255,12 +282,19 @@ fn run_case(out: &mut Out, ctx: &mut Ctx, sc: &Scope, ops: &[Op], tag: &str) {
         let mut nodes_after = all_node_reads(&store, sc);
         let edges_after = all_edge_reads(&store, sc);
         let txn_after = all_txn_reads(&store, sc);
-        if let (Op::CreateEdge(_, _), true) = (op, res.starts_with("MId") && store.current_version > 1) {
+        if matches!(op, Op::CreateEdge(_, _) | Op::CreateEdgeP(_, _, _)) && res.starts_with("MId") && store.current_version > 1 {
             edge_created_late = true;
         }
-        if let Op::SetEdge(e, _, _) = op {
-            if res == "MOk" && read_edge(&store, *e, 1).is_none() {
+        if let Op::SetEdge(e, _, _) | Op::RemoveEdge(e, _) = op {
+            if res == "MOk" && read_edge(&store, *e, 1).is_none() && read_edge(&store, *e, store.current_version).is_some() {
                 late_edge_updated = true;
+            }
+        }
+        if let Op::RemoveEdge(e, k) = op {
+            let had = before_remove.as_ref().map_or(false, |r| r.1.iter().any(|(kk, _)| kk == k));
+            if had {
+                edge_prop_removed = true;
+                let _ = e;
             }
         }
         // reads of the past are stable (C07): a collection may only change reads below its watermark
@@ -348,7 +382,7 @@ fn run_case(out: &mut Out, ctx: &mut Ctx, sc: &Scope, ops: &[Op], tag: &str) {
             sts += st << (2 * (id - 1));
         }
         let flat = |m: &Vec<Vec<Read>>| -> Vec<u64> { m.iter().flat_map(|r| r.iter().map(enc_read)).collect() };
-        let full = gc_w.is_some() || matches!(op, Op::CreateEdge(_, _) | Op::SetEdge(_, _, _)) || pos + 1 == ops.len() || matches!(ops.get(pos + 1), Some(Op::Gc(_)) | Some(Op::GcAuto));
+        let full = gc_w.is_some() || matches!(op, Op::CreateEdge(_, _) | Op::SetEdge(_, _, _) | Op::CreateEdgeP(_, _, _) | Op::RemoveEdge(_, _)) || pos + 1 == ops.len() || matches!(ops.get(pos + 1), Some(Op::Gc(_)) | Some(Op::GcAuto));
         if full {
             obs.push(format!(
                 "ObR ({}) {} {} {} {} {}",
@@ -383,6 +417,9 @@ fn run_case(out: &mut Out, ctx: &mut Ctx, sc: &Scope, ops: &[Op], tag: &str) {
     }
     if late_edge_updated {
         out.count("late_edge_updated");
+    }
+    if edge_prop_removed {
+        out.count("edge_property_removed");
     }
     if edge_log_late {
         out.count("edge_log_starts_after_creation");
@@ -435,10 +472,10 @@ fn letter(l: u32, val: u64, b: &mut Book, ops: &mut Vec<Op>) {
                 b.cur += 1;
             }
         }
-        5 => ops.push(Op::SetNode(2, 1, val)),
+        5 => ops.push(Op::RemoveEdge(1, 0)),
         6 => ops.push(Op::SetEdge(2, 1, val)),
-        // a relationship created at whatever version is current (id 2 the first time)
-        _ => ops.push(Op::CreateEdge(2, 1)),
+        // a relationship created with a property at whatever version is current (id 2 the first time)
+        _ => ops.push(Op::CreateEdgeP(2, 1, vec![(0, val)])),
     }
 }
 
@@ -502,7 +539,7 @@ fn main() {
     let mut out = Out::new(&args, "From Verif Require Import Txn Mvcc.", "Mvcc.case", "Mvcc.check_case", 500);
     out.rule = "exhaustive: from three setups (2 nodes + 1 relationship at version 1; the same with two-entry chains at \
                 version 3; the same with a snapshot transaction active since version 2) every history of <=2/3/2 \
-                (thorough: <=3/4/3) letters from {set node 1, set relationship 1, create relationship 2, set relationship 2, set node 2, version bump by a committed transaction, begin a \
+                (thorough: <=3/4/3) letters from {set node 1, set relationship 1, remove a property of relationship 1, create relationship 2 with a property (create_edge + set_edge_property_sparse), set relationship 2, version bump by a committed transaction, begin a \
                 snapshot transaction and leave it active, finish the oldest active transaction}, with gc_versions(w) for \
                 every w in 0..=current+1 and gc_auto inserted at every point. random: <=28 calls over <=3 nodes / 2 \
                 relationships / 4 transactions incl. creations at later versions, writes to missing ids and several GCs. \
@@ -533,9 +570,11 @@ fn main() {
         for _ in 0..len {
             let op = match r.below(24) {
                 0 => Op::CreateNode(if r.chance(1, 2) { vec![] } else { vec![(0, r.below(4))] }),
-                1..=2 => Op::CreateEdge(r.range(1, 3), r.range(1, 3)),
+                1 => Op::CreateEdge(r.range(1, 3), r.range(1, 3)),
+                2 => Op::CreateEdgeP(r.range(1, 3), r.range(1, 3), if r.chance(1, 2) { vec![(0, r.below(4))] } else { vec![(0, r.below(4)), (1, r.below(4))] }),
                 3..=7 => Op::SetNode(r.range(1, 3), r.below(2), r.below(4)),
-                8..=12 => Op::SetEdge(r.range(1, 2), r.below(2), r.below(4)),
+                8..=10 => Op::SetEdge(r.range(1, 2), r.below(2), r.below(4)),
+                11..=12 => Op::RemoveEdge(r.range(1, 2), r.below(2)),
                 13..=15 if begun < 4 => Op::Begin(r.chance(2, 3)),
                 13..=17 => {
                     if !open.is_empty() && r.chance(5, 6) {
